@@ -1132,6 +1132,43 @@ func (r *lmRun) doReset() {
 	r.fitKey, _, _ = r.fitState(after.zone)
 }
 
+// sampleSameState replays the operations before idx on a fresh allocator and asks it 24 times for an offer for the
+// identical request. More than one distinct answer at one and the same state = ":nondeterministic-at-same-state".
+func (r *lmRun) sampleSameState(idx int, op *lmOp, canonBefore string) string {
+	t := lmNewRun(r.ctx, r.cs, true)
+	if t == nil {
+		return ""
+	}
+	t.twin = true
+	for i := 0; i < idx && !t.aborted; i++ {
+		t.exec(i, &r.cs.Ops[i])
+	}
+	if t.aborted {
+		return ""
+	}
+	t.twinFull = true
+	t.cur = t.snap()
+	if t.canon(t.cur) != canonBefore {
+		return ""
+	}
+	t.opIdx = idx
+	answers := map[string]bool{}
+	for k := 0; k < 24 && !t.aborted; k++ {
+		o, ok := t.doGetOffer(op)
+		if !ok {
+			answers["failure"] = true
+			continue
+		}
+		answers[fmt.Sprintf("%x|%s", uint64(o.o.NodeMask()), t.canonUpd(o.o.Updates()))] = true
+	}
+	r.count("divergences_sampled_at_same_state")
+	if len(answers) > 1 {
+		r.count("divergences_nondeterministic_at_same_state")
+		return ":nondeterministic-at-same-state"
+	}
+	return ""
+}
+
 func (r *lmRun) exec(idx int, op *lmOp) {
 	r.opIdx = idx
 	switch op.Kind {
@@ -1189,12 +1226,20 @@ func (r *lmRun) exec(idx int, op *lmOp) {
 		// left something behind that changes later results (or that the allocator is not deterministic).
 		same12 := ok1 == ok2 && (!ok1 || (z1 == o2.o.NodeMask() && lmUpdEq(u1, o2.o.Updates())))
 		same23 := ok2 == ok3 && (!ok2 || (o2.o.NodeMask() == zone && lmUpdEq(o2.o.Updates(), upd)))
+		// A divergence is classified before it is reported: if 24 GetOffer calls for the identical request on a fresh,
+		// identically driven allocator at this very state do not all give the same answer, the allocator itself is not
+		// a function of (state, request) here (map iteration order inside overcommit resolution) - that is a different
+		// defect from a GetOffer that leaves something behind or an offer path that differs from the allocation path.
+		nd := ""
+		if !r.twin && (!same12 || !same23) {
+			nd = r.sampleSameState(idx, op, canonBefore)
+		}
 		if !same12 {
-			r.violate("C06", "getoffer-pure", "hidden-state:offer-then-offer", "two consecutive GetOffer calls for identical requests %s at the same state σ=[%s] differ: %s, then %s (then Allocate: %s)",
+			r.violate("C06", "getoffer-pure", "hidden-state:offer-then-offer"+nd, "two consecutive GetOffer calls for identical requests %s at the same state σ=[%s] differ: %s, then %s (then Allocate: %s)",
 				rq, zonesBefore, d1, d2, desc(ok3, zone, upd))
 		}
 		if !same23 {
-			r.violate("C06", "getoffer-pure", "hidden-state:offer-then-allocate", "GetOffer for %s at σ=[%s] gives %s (previous identical offer: %s) but Allocate of an identical request right after it gives %s",
+			r.violate("C06", "getoffer-pure", "hidden-state:offer-then-allocate"+nd, "GetOffer for %s at σ=[%s] gives %s (previous identical offer: %s) but Allocate of an identical request right after it gives %s",
 				rq, zonesBefore, d2, d1, desc(ok3, zone, upd))
 		}
 		// (b) twin: a second allocator driven through the identical operations up to here, then Allocate
@@ -1228,7 +1273,10 @@ func (r *lmRun) exec(idx int, op *lmOp) {
 		}
 		sameT := ok1 == okT && (!ok1 || (z1 == zT && r.canonUpd(u1) == t.canonUpd(uT)))
 		if !sameT {
-			r.violate("C06", "offer-eq-allocate", "offer-vs-direct-allocate", "GetOffer for %s at σ=[%s] gives %s, but Allocate of the identical request on an identically driven twin allocator (same σ) gives %s",
+			if nd == "" {
+				nd = r.sampleSameState(idx, op, canonBefore)
+			}
+			r.violate("C06", "offer-eq-allocate", "offer-vs-direct-allocate"+nd, "GetOffer for %s at σ=[%s] gives %s, but Allocate of the identical request on an identically driven twin allocator (same σ) gives %s",
 				rq, zonesBefore, d1, desc(okT, zT, uT))
 		}
 	case "commit":
